@@ -165,6 +165,8 @@ def run_batch(plan, pid, name, scheds, wd, idx, world=None, monitor=None):
     strict = None
     if name.startswith("model:") and world == "msg" and ":MC_C" in name and "MC_Server" not in name and scheds and scheds[0].get("strict", True):
         strict = C.tlc_strict(scheds[0]["cfg"], tp, wd)
+    if name.startswith("model:") and world == "msg" and (":MC_C11" in name or ":MC_C12" in name):
+        strict = C.tlc_strict(scheds[0]["cfg"], tp, wd, base="TraceServerStrict")
     if name.startswith("model:") and world == "nc" and "MC_NC_" in name:
         strict = C.tlc_strict_nc(name.split(":")[-1], tp, wd)
     return {"sched_path": sp, "trace_path": tp, "harness": hres, "flags": flags, "cov": cov, "states": states, "tlc_s": dt, "strict": strict}
